@@ -479,7 +479,12 @@ func (s *Sched) loop() Outcome {
 		}
 		s.cur = t
 		t.gate <- struct{}{}
-		<-s.parked
+		if x := <-s.parked; x != t {
+			panic(fmt.Sprintf("vrt: thread %s (%s) parked while thread %s (%s) was running: an operation was reached from a goroutine the scheduler does not manage", x.ID, x.Site, t.ID, t.Site))
+		}
+		if !t.exited && t.pending == nil {
+			panic(fmt.Sprintf("vrt: thread %s (%s) parked without a pending operation", t.ID, t.Site))
+		}
 		prev = t
 	}
 }
